@@ -754,26 +754,62 @@ def warm(repo, side):
 
 
 def lowlevel(repo, side, model, root):
-    """StaleRejected observed on the real objects: which accelerator entries the code accepts.
-    Returns a list of (site, clause, detail) for accepted entries that contradict the data they index."""
+    """StaleRejected observed on the real objects: which accelerator entries the code accepts, and what an
+    accepted entry says.  Returns a list of (site, clause, detail)."""
     out = []
     st = repo.object_store
     o2g = side.o2g()
-    # bitmaps: a file sitting next to a pack it was not built for must not be accepted
+    if not model["bmp"]:
+        return out
+    from dulwich.bitmap import bitmap_to_object_shas
     names = {pkey(v): k for k, v in project_pack_names(root, side).items()}
+    par = model["par"]
+
+    def closure(i):
+        seen, todo = set(), [i]
+        while todo:
+            c = todo.pop()
+            if c not in seen:
+                seen.add(c)
+                todo += par[c - 1]
+        return seen
     for b in model["bmp"]:
         at = pkey(b["at"])
         if at not in names:
             continue
         for p in st.packs:
-            if os.path.basename(p._basename) == names[at]:
+            if os.path.basename(p._basename) != names[at]:
+                continue
+            try:
+                bm = p.bitmap
+            except FileNotFoundError:
+                bm = None
+            except Exception as e:
+                out.append(("dulwich/pack.py:Pack.bitmap", "BitmapUnreadable", f"{type(e).__name__}"))
+                continue
+            if bm is None:
+                continue
+            # a file sitting next to a pack it was not built for must not be accepted
+            if b["at"] != b["for"]:
+                out.append(("dulwich/pack.py:Pack.bitmap", "StaleRejected", "bitmap built for another pack accepted"))
+                continue
+            # an accepted bitmap: every entry must decode to the closure of its commit within the pack
+            inpack = set(b["at"][0])
+            for key in list(bm.entries):
+                hexkey = key.hex() if len(key) == 20 else key.decode()
+                g = o2g.get(hexkey)
                 try:
-                    bm = p.bitmap
-                except FileNotFoundError:
-                    bm = None
+                    dec = bitmap_to_object_shas(bm.get_bitmap(key), p.index, None)
                 except Exception as e:
-                    out.append(("dulwich/pack.py:Pack.bitmap", "BitmapUnreadable", f"{type(e).__name__}"))
-                    continue
-                if bm is not None and b["at"] != b["for"]:
-                    out.append(("dulwich/pack.py:Pack.bitmap", "StaleRejected", "bitmap built for another pack accepted"))
+                    out.append(("dulwich/bitmap.py:read_bitmap_file", "BitmapDecode", f"entry raises {type(e).__name__}"))
+                    break
+                got = sorted(f"{o2g[h.decode()][0]}{o2g[h.decode()][1]}" if h.decode() in o2g else "?" for h in dec)
+                if g is None or g[1] != "c":
+                    out.append(("dulwich/bitmap.py:read_bitmap_file", "BitmapDecode", f"entry for a non-commit {hexkey[:8]}"))
+                    break
+                want = sorted(f"{i}{k}" for i in closure(g[0]) & inpack for k in KINDS)
+                if got != want:
+                    out.append(("dulwich/bitmap.py:read_bitmap_file", "BitmapDecode",
+                                f"accepted bitmap entry of commit {g[0]} decodes to {got}, its closure in the pack is {want}"))
+                    break
     return out
